@@ -257,7 +257,9 @@ def open_close_lemma():
                 L.require(o, False, "open-bitstr: input becomes the opened bit-string and offset an integer")
                 continue
             ns, ne = rng_of(L, L.payload(newin, 0, "bitstr::Bitstr"))
-            L.require(o, L.payload(newoff, 0, "i128").t == z3.ZeroExt(64, ns), "open-bitstr: offset = start of the opened bit-string")
+            L.require(o, L.payload(newoff, 0, "i128").t == z3.ZeroExt(64, ns), "open-bitstr: offset = start of the opened bit-string",
+                      cex=lambda m: {"lines": ["input ff00ff", "eval 8 bits drop", "eval 8 bits open-bitstr", "eval remain offset", "stack"],
+                                     "expect": [("no_panic",), ("last_result_in", ["ok"]), ("top_in", [("int", "8")]), ("second_in", [("int", "8")])]})
             # now close on the resulting state: must restore (input, offset, stash) exactly (LIFO)
             st2 = o.st
             xs2 = st2.ghost["roots"]["xs"]
